@@ -24,3 +24,14 @@ VARIANTS = [
     M('C04', 'refactor-rename-loop-var', E(CF, "                    for i, a in enumerate(original_expected)\n                    if any(r in a for r in remove_lines)", "                    for i, line in enumerate(original_expected)\n                    if any(r in line for r in remove_lines)"),
       kind='refactor'),
 ]
+
+VARIANTS += [
+    M('C04', 'pattern-tail-taken-from-actual-twice', E(CF, "                    expected_right = mExpected.group(pattern.groups)", "                    expected_right = mActual.group(pattern.groups)"),
+      rule='C04-SYM', key='check_patterns'),
+    M('C04', 'pattern-tail-parallel-assignment-slip', E(CF, "                    actual_left = mActual.group(1)\n                    expected_left = mExpected.group(1)\n                    actual_right = mActual.group(pattern.groups)\n                    expected_right = mExpected.group(pattern.groups)\n",
+                                                        "                    last = pattern.groups\n                    actual_left, expected_left = (\n                        mActual.group(1), mExpected.group(1)\n                    )\n                    actual_right, expected_right = (\n                        mActual.group(last), mActual.group(last)\n                    )\n"),
+      rule='C04-SYM', key='check_patterns'),
+    M('C04', 'refactor-pattern-groups-parallel-assignment', E(CF, "                    actual_left = mActual.group(1)\n                    expected_left = mExpected.group(1)\n                    actual_right = mActual.group(pattern.groups)\n                    expected_right = mExpected.group(pattern.groups)\n",
+                                                              "                    last = pattern.groups\n                    actual_left, expected_left = (\n                        mActual.group(1), mExpected.group(1)\n                    )\n                    actual_right, expected_right = (\n                        mActual.group(last), mExpected.group(last)\n                    )\n"),
+      kind='refactor'),
+]
